@@ -50,27 +50,27 @@ type Lock struct {
 
 // Row is one access.
 type Row struct {
-	ID     int    `json:"id"`
-	Var    string `json:"var"`
-	Write  bool   `json:"write"`
-	File   string `json:"file"`
-	Line   int    `json:"line"`
-	Func   string `json:"func"`
-	Root   int    `json:"root"`   // goroutine root inside Func (0 = the function body)
-	Multi  bool   `json:"multi"`  // the root may run concurrently with itself (fields: always)
-	Local  bool   `json:"local"`  // captured local variable (conflicts only across roots / multi roots)
-	Locks  []Lock `json:"locks"`  // effective lock set
-	Exempt string `json:"exempt"` // "", "init", "chanhb"
-	Ctx      int  `json:"ctx"`      // unique number of (Func, Root)
-	SelfConc bool `json:"selfconc"` // two executions of this access may overlap (fields: always)
+	ID       int    `json:"id"`
+	Var      string `json:"var"`
+	Write    bool   `json:"write"`
+	File     string `json:"file"`
+	Line     int    `json:"line"`
+	Func     string `json:"func"`
+	Root     int    `json:"root"`     // goroutine root inside Func (0 = the function body)
+	Multi    bool   `json:"multi"`    // the root may run concurrently with itself (fields: always)
+	Local    bool   `json:"local"`    // captured local variable (conflicts only across roots / multi roots)
+	Locks    []Lock `json:"locks"`    // effective lock set
+	Exempt   string `json:"exempt"`   // "", "init", "chanhb"
+	Ctx      int    `json:"ctx"`      // unique number of (Func, Root)
+	SelfConc bool   `json:"selfconc"` // two executions of this access may overlap (fields: always)
 	unit     *unit
 	lex      []Lock
 	obj      types.Object
-	pos      token.Pos // effective position (writes: end of the assigning statement)
-	recvFrom []string  // names of the channels received from before this access (for chanhb)
-	closedBy []string  // names of the channels closed after this access in its function (for chanhb)
-	ownWrite bool      // a write to the same location precedes in the same root (program order)
-	isCall   bool      // the access is a call through a func-typed field
+	pos      token.Pos    // effective position (writes: end of the assigning statement)
+	recvFrom []string     // names of the channels received from before this access (for chanhb)
+	closedBy []string     // names of the channels closed after this access in its function (for chanhb)
+	ownWrite bool         // a write to the same location precedes in the same root (program order)
+	isCall   bool         // the access is a call through a func-typed field
 	baseVar  types.Object // the variable the access path starts from, when it is a parameter of the unit
 	roots    *[]*root
 }
@@ -86,26 +86,38 @@ func origin(o types.Object) types.Object {
 }
 
 type callSite struct {
-	callee types.Object
-	held   []Lock
-	caller *unit
-	isGo   bool
-	direct bool           // a call expression with its argument list (not a method value / stored function)
-	argObj []types.Object // per argument: the variable passed, if the argument is a plain identifier
-	argNew []bool         // per argument: a local of the caller that holds an object under construction
+	callee   types.Object
+	held     []Lock
+	caller   *unit
+	isGo     bool
+	direct   bool           // a call expression with its argument list (not a method value / stored function)
+	argObj   []types.Object // per argument: the variable passed, if the argument is a plain identifier
+	argNew   []bool         // per argument: a local of the caller that holds an object under construction
+	root     int            // goroutine root of the calling code
+	rootsPtr *[]*root
+	recvd    []string // channels received from before the call, in the caller
 }
 
 type unit struct {
-	key      string
-	obj      types.Object // func or closure variable
-	exported bool
-	entry    []Lock // nil = TOP until computed
-	top      bool
-	fixed    bool // entry fixed to a given set (roots)
-	initCtx  bool
-	dead     bool // unexported, never referenced: unreachable code
-	skip     bool
-	decl     *ast.FuncDecl
+	key          string
+	obj          types.Object // func or closure variable
+	exported     bool
+	entry        []Lock // nil = TOP until computed
+	top          bool
+	fixed        bool // entry fixed to a given set (roots)
+	initCtx      bool
+	dead         bool // unexported, never referenced: unreachable code
+	skip         bool
+	decl         *ast.FuncDecl
+	entryRecv    []string // channels received from before every call of this unexported function
+	entryRecvTop bool
+	// closure units (name := func(){…}): the root created for the literal, the root that was
+	// current at the definition, and that root's multi flag
+	closure    bool
+	rootID     int
+	parentRoot int
+	parentMul  bool
+	rootsPtr   *[]*root
 }
 
 type root struct {
@@ -448,6 +460,7 @@ func (w *walker) stmt(s ast.Stmt) {
 							u = &unit{key: w.fnName + "$" + id.Name, obj: o, initCtx: w.initCtx}
 							w.pc.units[o] = u
 						}
+						u.closure, u.parentRoot, u.parentMul, u.rootID, u.rootsPtr = true, w.curRoot, w.roots[w.curRoot].multi, len(w.roots), &w.roots
 						w.funcLitUnit(fl, nil, true, true, u)
 						w.lhs(x.Lhs[0])
 						return
@@ -650,7 +663,7 @@ func (w *walker) expr(e ast.Expr, write bool) {
 	case *ast.SelectorExpr:
 		// method value of a library function = potential call site under the current locks
 		if sel := w.pc.info.Selections[x]; sel != nil && sel.Kind() == types.MethodVal {
-			w.pc.sites = append(w.pc.sites, callSite{callee: sel.Obj(), held: w.cur(), caller: w.unit})
+			w.pc.sites = append(w.pc.sites, callSite{callee: sel.Obj(), held: w.cur(), caller: w.unit, root: w.curRoot, rootsPtr: &w.roots, recvd: w.recvdList()})
 		}
 		w.access(x, write)
 		w.expr(x.X, false)
@@ -660,7 +673,7 @@ func (w *walker) expr(e ast.Expr, write bool) {
 				// a function value used as a value (timer callback, stored, passed on): it may be
 				// called later with nothing held
 				if _, isFn := o.Type().Underlying().(*types.Signature); isFn {
-					w.pc.sites = append(w.pc.sites, callSite{callee: o, held: nil, caller: w.unit, isGo: true})
+					w.pc.sites = append(w.pc.sites, callSite{callee: o, held: nil, caller: w.unit, root: w.curRoot, rootsPtr: &w.roots, recvd: w.recvdList(), isGo: true})
 				}
 			}
 		}
@@ -709,6 +722,17 @@ func (w *walker) expr(e ast.Expr, write bool) {
 }
 
 func (w *walker) cur() []Lock { return append([]Lock(nil), w.held...) }
+
+func (w *walker) recvdList() []string {
+	var out []string
+	for k, v := range w.recvd {
+		if v {
+			out = append(out, k)
+		}
+	}
+	sort.Strings(out)
+	return out
+}
 
 // syncCallbackCallee: callee invokes its function-literal argument synchronously on this goroutine.
 func (w *walker) classify(c *ast.CallExpr) (kind string, class string) {
@@ -770,7 +794,7 @@ func (w *walker) call(c *ast.CallExpr, isGo, isDefer bool) {
 				h = nil
 			}
 			ao, an := w.argInfo(c)
-			w.pc.sites = append(w.pc.sites, callSite{callee: sel.Obj(), held: h, caller: w.unit, isGo: isGo, direct: true, argObj: ao, argNew: an})
+			w.pc.sites = append(w.pc.sites, callSite{callee: sel.Obj(), held: h, caller: w.unit, root: w.curRoot, rootsPtr: &w.roots, recvd: w.recvdList(), isGo: isGo, direct: true, argObj: ao, argNew: an})
 		} else if sel != nil && sel.Kind() == types.FieldVal {
 			n := len(w.pc.rows)
 			w.access(f, false) // calling a func-typed field reads it
@@ -784,7 +808,7 @@ func (w *walker) call(c *ast.CallExpr, isGo, isDefer bool) {
 					h = nil
 				}
 				ao, an := w.argInfo(c)
-				w.pc.sites = append(w.pc.sites, callSite{callee: o, held: h, caller: w.unit, isGo: isGo, direct: true, argObj: ao, argNew: an})
+				w.pc.sites = append(w.pc.sites, callSite{callee: o, held: h, caller: w.unit, root: w.curRoot, rootsPtr: &w.roots, recvd: w.recvdList(), isGo: isGo, direct: true, argObj: ao, argNew: an})
 			}
 		}
 		w.expr(f.X, false)
@@ -795,7 +819,7 @@ func (w *walker) call(c *ast.CallExpr, isGo, isDefer bool) {
 				h = nil
 			}
 			ao, an := w.argInfo(c)
-			w.pc.sites = append(w.pc.sites, callSite{callee: o, held: h, caller: w.unit, isGo: isGo, direct: true, argObj: ao, argNew: an})
+			w.pc.sites = append(w.pc.sites, callSite{callee: o, held: h, caller: w.unit, root: w.curRoot, rootsPtr: &w.roots, recvd: w.recvdList(), isGo: isGo, direct: true, argObj: ao, argNew: an})
 			if _, isVar := o.(*types.Var); isVar {
 				w.ident(f, false)
 			}
@@ -828,7 +852,7 @@ func (w *walker) call(c *ast.CallExpr, isGo, isDefer bool) {
 			// a function value passed to HoldLock: a call site under the lock
 			if id, ok := a.(*ast.Ident); ok {
 				if o := w.pc.info.Uses[id]; o != nil {
-					w.pc.sites = append(w.pc.sites, callSite{callee: o, held: withLock(w.cur(), Lock{class, false}), caller: w.unit})
+					w.pc.sites = append(w.pc.sites, callSite{callee: o, held: withLock(w.cur(), Lock{class, false}), caller: w.unit, root: w.curRoot, rootsPtr: &w.roots, recvd: w.recvdList()})
 					continue
 				}
 			}
@@ -1103,6 +1127,115 @@ func (pc *pkgCtx) solve() {
 		}
 		if !changed {
 			break
+		}
+	}
+	// synchronous-only closures: a closure stored in a local (`f := func(){…}`) whose every use is a
+	// direct call `f()` or being passed to HoldLock / TryHoldLock / Wait / HoldLockMaybeAsync (never
+	// `go f()`, never stored or passed on as a value), all of them in the root that defines it, runs
+	// on the goroutine of the defining root: its
+	// accesses belong to that root, exactly as if the literal had been written at the call site.
+	// (Naming a shared HoldLock callback must not turn the locals it captures into cross-goroutine
+	// state.)
+	for iter := 0; iter < 8; iter++ {
+		changed := false
+		for o, u := range pc.units {
+			if !u.closure || u.rootsPtr == nil || len(sitesOf[o]) == 0 {
+				continue
+			}
+			syncOnly := true
+			for _, st := range sitesOf[o] {
+				// every use on the goroutine root that defines the closure
+				if st.isGo || st.rootsPtr != u.rootsPtr || st.root != u.parentRoot {
+					syncOnly = false
+				}
+			}
+			if !syncOnly {
+				continue
+			}
+			for _, r := range pc.rows {
+				if r.roots == u.rootsPtr && r.Root == u.rootID {
+					r.Root = u.parentRoot
+					if r.Local {
+						r.Multi = u.parentMul
+					}
+					changed = true
+				}
+			}
+		}
+		if !changed {
+			break
+		}
+	}
+	// receive-before-call: an unexported function called only directly (never `go`, never as a value)
+	// inherits the channels every caller has received from before the call (intersection over the
+	// call sites, fixed point). Used by the chan-hb exemption: reading a result through a helper
+	// after `<-p.done` is still a read after the receive.
+	for o, u := range pc.units {
+		u.entryRecvTop = !u.exported && u.decl != nil && len(sitesOf[o]) > 0
+	}
+	for iter := 0; iter < 20; iter++ {
+		changed := false
+		for o, u := range pc.units {
+			if u.exported || u.decl == nil || len(sitesOf[o]) == 0 {
+				continue
+			}
+			var acc []string
+			accTop, ok := true, true
+			for _, st := range sitesOf[o] {
+				if st.isGo || !st.direct {
+					ok = false
+					break
+				}
+				h := append([]string(nil), st.recvd...)
+				if st.caller != nil {
+					if st.caller.entryRecvTop {
+						continue // caller unknown yet: neutral element
+					}
+					h = append(h, st.caller.entryRecv...)
+				}
+				if accTop {
+					acc, accTop = h, false
+				} else {
+					var both []string
+					for _, x := range acc {
+						for _, y := range h {
+							if x == y {
+								both = append(both, x)
+								break
+							}
+						}
+					}
+					acc = both
+				}
+			}
+			if !ok {
+				acc, accTop = nil, false
+			}
+			if accTop {
+				continue
+			}
+			sort.Strings(acc)
+			if u.entryRecvTop || strings.Join(u.entryRecv, ",") != strings.Join(acc, ",") {
+				u.entryRecvTop, u.entryRecv, changed = false, acc, true
+			}
+		}
+		if !changed {
+			break
+		}
+	}
+	for _, r := range pc.rows {
+		if r.unit != nil && !r.unit.entryRecvTop {
+			for _, c := range r.unit.entryRecv {
+				found := false
+				for _, x := range r.recvFrom {
+					if x == c {
+						found = true
+					}
+				}
+				if !found {
+					r.recvFrom = append(r.recvFrom, c)
+				}
+			}
 		}
 	}
 	// fresh parameters: a parameter of an unexported function is an object under construction if at
@@ -1409,7 +1542,6 @@ func finish(all []*Row, fset *token.FileSet, repo, outLean, outJSON string) {
 	}
 	fmt.Printf("rows=%d vars=%d\n", len(rows), len(byVar))
 }
-
 
 func leanTable(rows []*Row) string {
 	var b strings.Builder
